@@ -219,6 +219,11 @@ def c16():
                     m = common.model()
                     mr = ["DIED"]
                 if not mr[0].startswith("SAME"):
+                    # the token-stream tie (like theorem C16_fmt) is claimed under the decidable zero-edge condition:
+                    # `if 0 == 0 {..}` re-lexes as `0 ==`,`0` instead of `0`,`== 0` although the tree comes out equal
+                    if (m.ask("typ zeroedge %s" % s0) or ["?"])[0] == "OK false":
+                        chk.notes["zero_edge_token_diffs"] = chk.notes.get("zero_edge_token_diffs", 0) + 1
+                        continue
                     chk.corr["disagreements"] += 1
                     chk.model_disagreements.append({"file": path, "width": w, "indent": i, "model": mr[0][:200]})
             # parser model = real parser on this file
